@@ -9,7 +9,8 @@
 // Also: COUNT(DISTINCT) over 20 distinct values with repeats in 32 orders; lines that start with a byte order mark / blank / tab at every
 // position and as the first line of a second file; the table produced after every line (multisets of up to 3 lines, 5 statements) ends the same for every permutation; every cut
 // also as two input files, the first with and without a final line feed; 11 large INT values (neighbours of 2^53, 10^8, 10^9, the 64-bit ends) in all multisets of 2..3 with MIN / MAX /
-// COUNT(DISTINCT) / STDDEV / VARIANCE / PERCENTILE compared exactly; 12 values whose squares need more than 53 bits in 5 orders.
+// COUNT(DISTINCT) / STDDEV / VARIANCE / PERCENTILE compared exactly; 12 values whose squares need more than 53 bits in 5 orders; MIN / MAX of all triples of 8 TEXT values
+// that look like numbers or not (every permutation).
 include!("verif_grid_common.rs");
 include!("verif_grid_qcommon.rs");
 
@@ -194,6 +195,21 @@ fn verif_grid() {
                 Ok(())
             });
         }
+    }
+    // MIN / MAX of TEXT values that look like numbers, mixed with ones that do not: the same in every order
+    {
+        let pool = ["2", "10", "1x", "x1", "010", "9", "1e1", "_"];
+        for a in 0..pool.len() { for b in a + 1..pool.len() { for c in b + 1..pool.len() {
+            let texts = [pool[a], pool[b], pool[c]];
+            g.case(&format!("text-extremes-{}-{}-{}", a, b, c), move || {
+                let lines: Vec<String> = texts.iter().map(|t| format!("k={} v=1", t)).collect();
+                let refs: Vec<&str> = lines.iter().map(|l| l.as_str()).collect();
+                let st = "SELECT MIN(k) AS lo, MAX(k) AS hi FROM t";
+                check_permutations(st, &refs, false)?;
+                check_permutations("SELECT v, MAX(k) AS hi, MIN(k) AS lo FROM t GROUP BY v", &refs, false)?;   // (which text is the smallest is C04's business)
+                Ok(())
+            });
+        } } }
     }
     // MIN / MAX of an array-valued argument and AVG of REAL values whose sums are exact: the same in every order
     {
